@@ -217,6 +217,29 @@ class Ctx:
         if p.returncode != 0 or "Semantic errors" in p.stdout or "Parse Error" in p.stdout or "Fatal errors" in p.stdout:
             raise MachineryError("SANY rejected %s:\n%s" % (module, p.stdout[-3000:]))
 
+    def apalache(self, module, inv, init="Init", nxt="Next", length=0, timeout=600):
+        """Check invariant <inv> of <module>.tla with Apalache (symbolic, unbounded over integers) for executions of
+        <length> steps.  A refuted law is a defect of the specification, not of the code: exit 2, like every other
+        failure of this step."""
+        self.prepare_spec()
+        out = tempfile.mkdtemp(prefix="apalache-", dir=self.scratch)
+        cmd = ["apalache-mc", "check", "--out-dir=" + out, "--length=%d" % length, "--init=" + init, "--next=" + nxt,
+               "--inv=" + inv, module + ".tla"]
+        t0 = time.time()
+        try:
+            p = subprocess.run(cmd, cwd=self.specdir, capture_output=True, text=True, timeout=timeout)
+        except subprocess.TimeoutExpired:
+            raise MachineryError("apalache timed out on %s!%s" % (module, inv))
+        ok = p.returncode == 0 and "EXITCODE: OK" in p.stdout
+        job = {"tool": "apalache-mc check", "module": module, "invariant": inv, "length": length,
+               "result": "holds" if ok else "error", "wall_s": round(time.time() - t0, 1)}
+        self.extra.setdefault("apalache_jobs", []).append(job)
+        log("[apalache] %s!%s length=%d -> %s (%.1fs)" % (module, inv, length, job["result"], time.time() - t0))
+        shutil.rmtree(out, ignore_errors=True)
+        if not ok:
+            raise MachineryError("apalache did not establish %s!%s:\n%s" % (module, inv, p.stdout[-2500:]))
+        return job
+
     # --------------------------------------------------------------- harness
     def build_vh(self, race=False, tags="verif"):
         key = (race, tags)
